@@ -957,7 +957,12 @@ class Machine:
 				return False
 			if isinstance(o, Table):
 				return any(isinstance(c, Table) or any(isinstance(x, Vector) for x in c._underlying) for c in cells if isinstance(c, Vector))
-			return any(isinstance(x, Vector) for x in cells)
+			inner = [x for x in cells if isinstance(x, Vector)]
+			if not inner:
+				return False
+			# (equal-length plain vectors as the ONLY cells is what a table is made of: a result of that shape which is not a Table is judged - it should have been
+			# one; ragged lengths, tables or other values among the cells make it the legitimately non-table kind)
+			return any(isinstance(x, Table) for x in inner) or len(inner) != len(cells) or len({len(x) for x in inner}) > 1
 		chk = self.chk
 		last = self.trace[-1] if self.trace else {}
 		refused_alias = "AliasError" in str(last.get("out", ""))
